@@ -37,19 +37,20 @@ LINK_ATOMS = [("P", (0, 0, 0)), ("O5'", (1500, 500, 0)), ("C5'", (2500, 1500, 30
 
 
 def link_table(rng):
-    """one strand whose consecutive O3'(i)-P(i+1) distances straddle the 2.4 A connectivity threshold"""
+    """one to three strands (chains) whose consecutive O3'(i)-P(i+1) distances straddle the 2.4 A connectivity threshold"""
     table, serial = [], 1
-    n = rng.randint(3, 7)
-    num = rng.choice([1, -3, 98])
-    for i in range(n):
-        base = rng.choice("ACGU")
-        d = rng.choice([1500, 1600, 1900, 1950, 1970, 2000, 2200, 2350, 2390, 2399, 2401, 2410, 2450, 2600, 3000])
-        atoms = list(LINK_ATOMS) + ([("N9", (5000, 4800, 1400)), ("C4", (6200, 5200, 1000))] if base in "AG" else [("N1", (5000, 4800, 1400)), ("C2", (6200, 5200, 1000))])
-        atoms.append(("O3'", (14000 - d, 0, 0)))
-        for nm, (x, y, z) in atoms:
-            table.append({"record_type": "ATOM", "name": nm, "altLoc": "", "resName": base, "chainID": "A", "resSeq": num + i, "iCode": "", "element": genatoms.element_of(nm),
-                          "charge": "", "occ100": 100, "het": False, "model": 1, "serial": serial, "x1000": 14000 * i + x, "y1000": y, "z1000": z, "b100": 1000})
-            serial += 1
+    for c, chain in enumerate("ABC"[:rng.randint(1, 3)]):
+        n = rng.randint(3, 7)
+        num = rng.choice([1, -3, 98])
+        for i in range(n):
+            base = rng.choice("ACGU")
+            d = rng.choice([1500, 1600, 1600, 1900, 1950, 1970, 2000, 2200, 2350, 2390, 2399, 2401, 2410, 2450, 2600, 3000])
+            atoms = list(LINK_ATOMS) + ([("N9", (5000, 4800, 1400)), ("C4", (6200, 5200, 1000))] if base in "AG" else [("N1", (5000, 4800, 1400)), ("C2", (6200, 5200, 1000))])
+            atoms.append(("O3'", (14000 - d, 0, 0)))
+            for nm, (x, y, z) in atoms:
+                table.append({"record_type": "ATOM", "name": nm, "altLoc": "", "resName": base, "chainID": chain, "resSeq": num + i, "iCode": "", "element": genatoms.element_of(nm),
+                              "charge": "", "occ100": 100, "het": False, "model": 1, "serial": serial, "x1000": 14000 * i + x, "y1000": y + 40000 * c, "z1000": z, "b100": 1000})
+                serial += 1
     return table
 
 
@@ -193,6 +194,39 @@ def run(ctx):
                             ctx.violation("connectivity is not 'O3'-P below 2.4 A'", {"kind": kind, "residues": [a.full_name, b.full_name], "distance": dist, "connected": c1})
                     if c1 != c2:
                         ctx.violation("the two readers disagree on residue connectivity", {"kind": kind, "format": fmt, "residues": [a.full_name, b.full_name]})
+            # connected segments and torsion rows of the table-level reader against the definition computed from the residue-level
+            # reader's atoms: per chain, residues in (number, insertion code) order, cut where O3'-P is not below 2.4 A, runs of >= 2
+            by_chain, undecided = {}, False
+            for r in rs:
+                by_chain.setdefault(r.chain, []).append(r)
+            want_segments = set()
+            for ch, lst in by_chain.items():
+                lst = sorted(lst, key=lambda r: (r.number, r.icode or ""))
+                cur = [lst[0]]
+                for a, b in zip(lst, lst[1:]):
+                    o3, p = a.find_atom("O3'"), b.find_atom("P")
+                    gap = None if o3 is None or p is None else math.dist((o3.x, o3.y, o3.z), (p.x, p.y, p.z))
+                    if gap is not None and abs(gap - 2.4) < 1e-6:
+                        undecided = True
+                    if gap is not None and gap < 2.4:
+                        cur.append(b)
+                    else:
+                        if len(cur) > 1:
+                            want_segments.add(tuple((x.chain, x.number, x.icode) for x in cur))
+                        cur = [b]
+                if len(cur) > 1:
+                    want_segments.add(tuple((x.chain, x.number, x.icode) for x in cur))
+            if not undecided and len({(r.chain, r.number, r.icode) for r in rs}) == len(rs):
+                try:
+                    got_segments = {tuple((x.chain_id, x.residue_number, x.insertion_code) for x in seg) for seg in s2.connected_residues}
+                except Exception as e:  # noqa: BLE001
+                    got_segments = None
+                    ctx.violation(f"connected_residues raised {type(e).__name__}: {e}", {"kind": kind, "format": fmt, "file": text[:3000]})
+                if got_segments is not None and got_segments != want_segments:
+                    ctx.violation("the table-level reader's connected segments are not the runs of O3'-P-connected residues of each chain",
+                                  {"kind": kind, "format": fmt, "file": text[:3000], "missing": sorted(map(repr, want_segments - got_segments))[:5],
+                                   "spurious": sorted(map(repr, got_segments - want_segments))[:5]})
+                ctx.coverage["segment_sets_compared"] = ctx.coverage.get("segment_sets_compared", 0) + 1
             try:
                 tors = s2.torsion_angles
                 chi2 = {(row["chain_id"], row["residue_number"], row["insertion_code"]): row["chi"] for _, row in tors.iterrows()}
